@@ -274,6 +274,19 @@ var badRaw = []string{
 // line's "msg=", a node prefix, a stray byte): a parser may accept or refuse that, but a Push that reports
 // success has taken the record.
 func rawFor(id int, seq uint32) string {
+	// white space around the record (the newline a line reader leaves, the padding of a datagram): the parser trims
+	// it; the bytes are still the caller's, who overwrites them as soon as Push has returned
+	lead, trail := "", ""
+	switch id % 5 {
+	case 2:
+		trail = []string{"\n", " ", "\t\n", "\r\n"}[id/5%4]
+	case 4:
+		lead, trail = []string{" ", "\n", "", "  "}[id/5%4], []string{"", "\n", "\n\n", " "}[id/5%4]
+	}
+	return lead + rawForText(id, seq) + trail
+}
+
+func rawForText(id int, seq uint32) string {
 	return rawPrefix(id) + fmt.Sprintf("audit(%d.%03d:%d): nonce=%d", []int64{1700000000, 4102444800, 1700000000, 1}[seq%4], id%1000, seq, id)
 }
 
